@@ -103,9 +103,9 @@ class Verifier(Interp):
             guard = z3.And(k >= self.term(c.lo, INT), k < self.term(c.hi, INT))
             env[names[0]] = P(INT, k)
         elif isinstance(c, Special) and c.tag == "typedom":
-            k = z3.Const(self.fresh_name("q." + names[0]), sort_of(c.ty))
+            k = z3.Const(self.fresh_name("q." + names[0]), sort_of(c.dom))
             vars_ = [k]
-            env[names[0]] = P(c.ty, k)
+            env[names[0]] = P(c.dom, k)
         elif isinstance(c, P) and c.ty.kind == "seq" or isinstance(dom, OptV):
             sq = lib.seq_of(self, dom)
             k = z3.Int(self.fresh_name("q.i"))
@@ -165,9 +165,9 @@ class Verifier(Interp):
                 self.heap_override = self.old_heap if self.old_heap is not None else self.st.heap
                 try:
                     v = self.ev(n.args[0])
-                    if isinstance(v, Ref) and v.ty.kind in ("map", "bimap", "list", "set"):
+                    if isinstance(v, Ref) and v.ty.kind in ("map", "bimap", "list", "setcell"):
                         v = self.heap_override[v.rid]   # snapshot of the cell content
-                    elif isinstance(v, OptV) and isinstance(v.val, Ref) and v.val.ty.kind in ("map", "bimap", "list", "set"):
+                    elif isinstance(v, OptV) and isinstance(v.val, Ref) and v.val.ty.kind in ("map", "bimap", "list", "setcell"):
                         v = OptV(v.some, self.heap_override[v.val.rid])
                     return v
                 finally:
@@ -223,6 +223,8 @@ class Verifier(Interp):
     # ================================================================= UF spec functions
     def flatten_arg(self, pty, a):
         """Flatten a spec-function argument to z3 terms (objects -> their config fields)."""
+        if isinstance(a, OptV):
+            a = a.val
         if isinstance(pty, Ty) and pty.kind == "obj":
             ot = self.reg.objtypes[pty.args[0]]
             out = []
@@ -495,6 +497,8 @@ class Verifier(Interp):
             ok = True
             for p, ty in c.types.items():
                 v = bound.get(p)
+                if isinstance(v, OptV):
+                    v = v.val
                 if isinstance(ty, Ty) and ty.kind == "obj" and isinstance(v, Ref) and v.ty.kind == "obj":
                     if not self.is_subtype(self.st.heap[v.rid].cls, ty.args[0]):
                         ok = False
@@ -574,11 +578,11 @@ class Verifier(Interp):
         for p, v in bound.items():
             ty = con.types.get(p)
             if isinstance(v, Special) and v.tag == "kwargs":
-                kt = con.kwargs_types or {}
+                kt = con.kwargs_types or (ty if isinstance(ty, dict) else {})
                 items = {}
                 for k, t in kt.items():
                     items[k] = self.coerce(v.items[k], t) if k in v.items else self.coerce(NoneV(), t) \
-                        if t.kind == "opt" else None
+                        if t.kind == "opt" else (P(t, z3.Const("default<%s>" % k, sort_of(t))) if t.kind == "opq" else None)
                     if items[k] is None:
                         raise Unsupported("kwargs key %s missing at call" % k)
                 for k in v.items:
@@ -653,6 +657,9 @@ class Verifier(Interp):
         env = self.typed_bind(con, bound)
         if con.record:
             self.st.calls.append((con.key, dict(env)))
+            rec_index = len(self.st.calls) - 1
+        else:
+            rec_index = None
         name = "%s#call[%s]" % (self.cur_func, callee)
         # preconditions
         def pre():
@@ -717,6 +724,8 @@ class Verifier(Interp):
             self.spec_eval(post, env2)
             if con.trusted:
                 self.used_assumptions.add("trusted contract (not verified): %s" % con.key)
+            if rec_index is not None:
+                self.st.calls[rec_index][1]["result"] = res
         finally:
             self.old_heap = saved_old
         return res
@@ -789,6 +798,8 @@ class Verifier(Interp):
         return super().ite(c, a, b)
 
     def coerce(self, v, ty):
+        if isinstance(v, Conc) and isinstance(v.v, dict) and ty.kind in ("map", "bimap"):
+            v = Special("dict_lit", pairs=[(Conc(a), Conc(b)) for a, b in v.v.items()])
         if isinstance(v, Special) and v.tag == "dict_lit" and ty.kind in ("map", "bimap"):
             kt, vt = ty.args
             ks, vs = sort_of(kt), sort_of(vt)
@@ -804,6 +815,10 @@ class Verifier(Interp):
             keys = [a for a, _ in v.pairs]
             return lib.alloc(self, ty, BimapV(build(v.pairs, kt, vt), build([(b, a) for a, b in v.pairs], vt, kt)),
                              "cell.bidict")
+        if ty.kind == "set" and isinstance(v, Ref) and v.ty.kind == "setcell":
+            return self.st.heap[v.rid]
+        if ty.kind == "setcell":
+            return v
         if ty.kind == "list":
             if isinstance(v, Ref) and v.ty.kind == "list":
                 c = self.st.heap[v.rid]
@@ -828,6 +843,9 @@ class Verifier(Interp):
         if ty.kind == "list":
             et = ty.args[0]
             return lib.alloc(self, ty, P(SeqT(et), z3.Const(self.fresh_name(hint), sort_of(SeqT(et)))), "cell." + hint)
+        if ty.kind == "setcell":
+            st_ = SetT(ty.args[0])
+            return lib.alloc(self, ty, P(st_, z3.Const(self.fresh_name(hint), sort_of(st_))), "cell." + hint)
         return super().fresh(ty, hint)
 
     def decide(self, cond):
@@ -1028,7 +1046,9 @@ class Verifier(Interp):
                 env["ENUM"] = self.last_enum
             return self.spec_eval(lambda: FAnd([self.formula(c) for c in inv.invariant],
                                                [str(i) for i in range(len(inv.invariant))]), env)
+        saved_calls, self.st.calls = self.st.calls, []
         self.prove(name + ".init", inv_formula(zint(0)), meta={"kind": "loop-init"})
+        self.st.calls = saved_calls
         # --- havoc
         mods = self.assigned_names(s.body) | set(inv.modifies)
         pre_vars = dict(self.st.vars)
@@ -1043,6 +1063,7 @@ class Verifier(Interp):
         # fork: either run one arbitrary iteration (then cut) or exit
         if self.decide(z3.BoolVal(True) if False else z3.Bool(self.fresh_name("loop%d.step" % ordn))):
             self.st.pc.append(z3.And(k >= 0, k < n))
+            self.st.calls = []                # ghost call trace of this iteration only
             self.st.vars[kname] = P(INT, k)   # ghost local: loop index, visible to inner invariants
             self.assume(inv_formula(k), "inv")
             try:
@@ -1056,6 +1077,7 @@ class Verifier(Interp):
             self.prove(name + ".step", inv_formula(k + 1), meta={"kind": "loop-step"})
             raise PathCut()
         else:
+            self.st.calls = []
             self.assume(inv_formula(n), "inv.exit")
             # loop target keeps last value (if n > 0); leave it havoc'd/undefined
             return
@@ -1330,8 +1352,12 @@ class Verifier(Interp):
                                     changed = True
                             st2.extend(x.children())
         bad = [src for src, sym in self.nondet if sym.decl().name() in names]
+        allowed = z3.BoolVal(False)
+        if con.nondet_ok:
+            # nondeterminism is admitted only under this condition (e.g. no salt supplied)
+            allowed = self.spec_eval(lambda: self.truth(self.ev(self.parse(con.nondet_ok))), self.entry_env)
         for src in sorted(set(bad)):
-            self.emit("%s#deterministic[%s]" % (short, src), z3.BoolVal(False), meta={"kind": "determinism"})
+            self.emit("%s#deterministic[%s]" % (short, src), allowed, meta={"kind": "determinism"})
         if not bad:
             self.emit("%s#deterministic" % short, z3.BoolVal(True), meta={"kind": "determinism"})
 
